@@ -3,12 +3,14 @@ import NucsModel.Engine.Search
 import NucsModel.MP
 import NucsModel.ProblemOps
 import NucsModel.Examples
+import NucsModel.Propagators.SupportCert
 /-!
   Line protocol between the Python harness and the model (one request per line, one answer per
   line).  Lists are comma separated, `-` is the empty list, a domain is `min:max`.
 
     prop <alg> <params> <box>                         one filtering call
     trig <alg> <params> <n>                           get_triggers
+    supp <alldifferent|gcc> <params> <box>            support certificate of a result box (1 = every bound supported)
     init <shr> <vars> <props>                         Problem.init: order + trigger matrix
     bc <shr> <vars> <props> <doms> <ne> <trig>        one propagation pass on a given state
     heur <name> <costs> <doms> <d>                    a value heuristic
@@ -98,6 +100,11 @@ def step (line : String) : String :=
       | .error e => showErr e
       | .ok (.inc, _) => "0"
       | .ok (st, B) => s!"{st.code} {showBox B}"
+  | ["supp", a, ps, box] =>
+    match Alg.ofName a with
+    | some .alldifferent => if alldiffSupported (parseBox box) then "1" else "0"
+    | some .gcc => if gccSupported (parseInts ps) (parseBox box) then "1" else "0"
+    | _ => "bad-op"
   | ["trig", a, ps, n] =>
     match Alg.ofName a with
     | none => "bad-op"
